@@ -190,7 +190,67 @@ def _elem_wrap(kind, term):
         return SRef(term)
     if kind == "opaque":
         return Opaque("elem")
+    if kind == "str":
+        return SStr(term)
     raise OutOfSubset("list kind %s" % kind)
+
+
+def _range_sort(kind):
+    return z3.StringSort() if kind == "str" else z3.IntSort()
+
+
+def _default_elem(kind):
+    return z3.StringVal("") if kind == "str" else z3.IntVal(0)
+
+
+def kind_of_value(v):
+    """element kind under which a value can be stored in a symbolic list"""
+    if isinstance(v, (str, SStr)):
+        return "str"
+    if isinstance(v, (bool, SBool)):
+        return "ref"
+    if _zint(v) is not None:
+        return "int"
+    return "ref"
+
+
+class GhostVal:
+    """A value implemented by the harness: the abstract view of a data structure of the code under
+    contract (a list of lists, a table, a set ...).  The interpreter forwards the operations the real
+    code performs on it to the pv_* methods; an operation that is not provided is outside the subset.
+    What the methods assume about the concrete structure is the representation invariant stated by the
+    harness (and listed among its assumptions)."""
+
+    pv_pytype = "object"      # 'list' | 'set' | 'dict' | 'tuple' | 'object'  (isinstance / truthiness)
+
+    def _no(self, what):
+        raise OutOfSubset("%s on ghost value %s" % (what, type(self).__name__))
+
+    def pv_len(self):
+        self._no("len")
+
+    def pv_getitem(self, k):
+        self._no("subscript")
+
+    def pv_setitem(self, k, v):
+        self._no("item assignment")
+
+    def pv_iter(self):
+        """python list of items, an AbstractSeq, or None"""
+        self._no("iteration")
+
+    def pv_contains(self, x):
+        self._no("membership")
+
+    def pv_getattr(self, name):
+        self._no("attribute %s" % name)
+
+    def pv_binop(self, opname, other, reflected):
+        self._no("operator %s" % opname)
+
+    def pv_truthy(self):
+        n = self.pv_len()
+        return n != 0
 
 
 _obj_ids = {}
@@ -216,6 +276,12 @@ def _elem_unwrap(kind, v):
         return z
     if kind == "opaque":
         return z3.Int(CTX.fresh_name("oq"))
+    if kind == "str":
+        if isinstance(v, str):
+            return z3.StringVal(v)
+        if isinstance(v, SStr):
+            return v.t
+        raise OutOfSubset("non-str stored in a str list")
     if kind == "ref":
         if isinstance(v, SRef):
             return v.t
@@ -247,7 +313,7 @@ class VList:
     # -- constructors
     @staticmethod
     def symbolic(name, kind, length):
-        arr = z3.Array(name, z3.IntSort(), z3.IntSort())
+        arr = z3.Array(name, z3.IntSort(), _range_sort(kind))
         lz = _zint(length)
         return VList(None, lz, arr, kind)
 
@@ -258,7 +324,7 @@ class VList:
         """switch representation in place (used when a loop havocs the list)."""
         if self.items is None:
             return
-        arr = z3.K(z3.IntSort(), z3.IntVal(0))
+        arr = z3.K(z3.IntSort(), _default_elem(kind))
         for i, v in enumerate(self.items):
             arr = z3.Store(arr, i, _elem_unwrap(kind, v))
         self.length = z3.IntVal(len(self.items))
@@ -269,8 +335,10 @@ class VList:
     def havoc(self, kind=None):
         if self.items is not None:
             self.make_symbolic(kind or "ref")
+        if kind is not None:
+            self.kind = kind
         self.length = z3.Int(CTX.fresh_name("len"))
-        self.arr = z3.Array(CTX.fresh_name("arr"), z3.IntSort(), z3.IntSort())
+        self.arr = z3.Array(CTX.fresh_name("arr"), z3.IntSort(), _range_sort(self.kind))
         CTX.assume(self.length >= 0)
 
     def snapshot(self):
@@ -354,6 +422,11 @@ class VList:
                 o = other_items
                 if self.items is not None:
                     self.make_symbolic(o.kind)
+                if self.kind != o.kind and z3.is_int_value(z3.simplify(self.length)) and z3.simplify(self.length).as_long() == 0:
+                    self.kind = o.kind
+                    self.arr = o.arr
+                    self.length = o.length
+                    return
                 if self.kind != o.kind:
                     # mixed element kinds: keep the length, forget the contents
                     la = self.length
